@@ -455,7 +455,7 @@ func c04Bounds(c *Ctx, f *ssa.Function, tr *an.Tracer) {
 	for _, cs := range an.CallsNamed(f, load.IgePkg+".Decrypt") {
 		decryptBlock = cs.Block
 	}
-	Ns := []int64{8, 9, 16, 23, 24, 25, 39, 40, 56, 88, 1048}
+	Ns := c.grid([]int64{8, 9, 16, 23, 24, 25, 39, 40, 56, 88, 1048}, 0, 600, 1)
 	for _, s := range sites {
 		var bad []string
 		points := 0
